@@ -339,11 +339,10 @@ namespace Dune {
             FieldVector<K,2> ev1 = {matrix[0][1], matrix[1][1]-eigenValues[1]};
             eigenVectors[0] = (ev0.two_norm2() >= ev1.two_norm2()) ? ev0/ev0.two_norm() : ev1/ev1.two_norm();
 
-            // The columns of A - λ_1I are eigenvectors for λ_2, or zero.
-            // Take the column with the larger norm to avoid zero columns.
-            ev0 = {matrix[0][0]-eigenValues[0], matrix[1][0]};
-            ev1 = {matrix[0][1], matrix[1][1]-eigenValues[0]};
-            eigenVectors[1] = (ev0.two_norm2() >= ev1.two_norm2()) ? ev0/ev0.two_norm() : ev1/ev1.two_norm();
+            // The eigenvectors of a symmetric matrix are orthogonal: the eigenvector for λ_2 is the
+            // eigenvector for λ_1 rotated by 90 degrees. (Computing it from the columns of A - λ_1I
+            // independently loses orthogonality when λ_1 and λ_2 are close.)
+            eigenVectors[1] = {-eigenVectors[0][1], eigenVectors[0][0]};
           }
         }
       }
